@@ -2,6 +2,6 @@
 # exploratory prototype (design round): serialise a few real hierArc functions and prove C03/C04 facts about them
 set -e
 python3 py2coq.py spec.json Src.v
-for f in PyAst PyVal PySem Src XLemmas Test1 Test3; do timeout 300 coqc -Q . Py $f.v; done
+for f in PyAst PyVal PySem Src XLemmas Unfold Test1 Test3 Corr TestN; do timeout 300 coqc -Q . Py $f.v; done
 rm -f *.vo *.vok *.vos *.glob .*.aux Src.v
 echo PROTOTYPE_OK
